@@ -114,6 +114,36 @@ Fixpoint quoted_list (fuel : nat) (s : string) : option (list string * string) :
     | None => Some ([], s)
     end
   end.
+(* the parts of a json path as printed: 'key' or a bare number (an [n] part); the number is kept as the byte 0 followed by
+   its digits, a key that begins with the byte 0 with that byte doubled (SqlEval.key_lit): the forms LogqlPlan.json_part
+   prints back *)
+Fixpoint take_digits (s : string) : string * string :=
+  match s with
+  | String c r => if is_digit c then let (d, rest) := take_digits r in (String c d, rest) else (EmptyString, s)
+  | EmptyString => (EmptyString, s)
+  end.
+Definition take_part (s : string) : option (string * string) :=
+  match take_quoted s with
+  | Some (k, rest) => Some (key_lit k, rest)
+  | None => match take_digits s with
+            | (EmptyString, _) => None
+            | (d, rest) => Some (String "000"%char d, rest)
+            end
+  end.
+Fixpoint part_list (fuel : nat) (s : string) : option (list string * string) :=
+  match fuel with
+  | O => None
+  | S f =>
+    match take_part s with
+    | Some (v, rest) =>
+      match rest with
+      | String c r => if Ascii.eqb c "," then match part_list f r with Some (vs, r2) => Some (v :: vs, r2) | None => None end
+                      else Some ([v], rest)
+      | EmptyString => Some ([v], rest)
+      end
+    | None => Some ([], s)
+    end
+  end.
 Fixpoint skip_digits (s : string) : string :=
   match s with String c r => if is_digit c then skip_digits r else s | EmptyString => s end.
 (* regexMap.String: mapFromArrays(arrayFilter( (x,y) -> ..., [<names>] as re_lbls_N, arrayMap(..., extractAllGroupsHorizontal(string, <re>)) as re_vals_N), ...) *)
@@ -136,15 +166,15 @@ Definition parse_regex_map (t : string) : option expr :=
 Definition json_item (s : string) : option (list string * string) :=
   match after_prefix "if(JSONType(string, " s with
   | Some r1 =>
-    match quoted_list (S (String.length r1)) r1 with
+    match part_list (S (String.length r1)) r1 with
     | Some (p1, r2) =>
       match after_prefix ") == 'String', JSONExtractString(string, " r2 with
       | Some r3 =>
-        match quoted_list (S (String.length r3)) r3 with
+        match part_list (S (String.length r3)) r3 with
         | Some (p2, r4) =>
           match after_prefix "), JSONExtractRaw(string, " r4 with
           | Some r5 =>
-            match quoted_list (S (String.length r5)) r5 with
+            match part_list (S (String.length r5)) r5 with
             | Some (p3, r6) =>
               match after_prefix "))" r6 with
               | Some rest => if strs_eqb p1 p2 && strs_eqb p1 p3 then Some (p1, rest) else None
